@@ -62,6 +62,7 @@ class Counted:
 
     def __call__(self, v, *a, **k):
         self.n += 1
+        self.last = np.array(v, dtype=float, copy=True)     # v_k of the last application
         return self.fn(v, *a, **k)
 
 
@@ -74,9 +75,13 @@ def run_fp(T, v0, tol, max_iter, method):
         try:
             v = compute_fixed_point(Tc, v0, error_tol=tol, max_iter=max_iter, verbose=1, print_skip=5, method=method)
         except ValueError:
-            return 1, [], 0, False
+            return 1, [], 0, False, None
     warned = any(issubclass(x.category, RuntimeWarning) and "max_iter attained" in str(x.message) for x in w)
-    return 0, [float(x) for x in np.atleast_1d(np.asarray(v, dtype=float))], Tc.n, warned
+    vl = [float(x) for x in np.atleast_1d(np.asarray(v, dtype=float))]
+    # residual the code itself measured at the last application: max|T(v_k) - v_k| with v = T(v_k) returned
+    last = [F(x) for x in np.atleast_1d(Tc.last)] if method == "iteration" else None
+    rk = max(abs(F(a) - b) for a, b in zip(vl, last)) if last is not None and len(last) == len(vl) else None
+    return 0, vl, Tc.n, warned, rk
 
 
 def run(ctx):
@@ -103,9 +108,9 @@ def run(ctx):
         return T
 
     cases, meta = [], []
-    for _ in range(1200 if thorough else 320):
+    for _ in range(5000 if thorough else 320):
         n = rng.randrange(1, 5)
-        kind = rng.choice(["contraction", "contraction", "contraction", "stochastic", "expanding", "rational"])
+        kind = rng.choice(["contraction", "contraction", "contraction", "stochastic", "expanding", "rational", "exact_tol"])
         if kind == "contraction" or kind == "rational":
             den = 16 if kind == "contraction" else rng.choice([3, 7, 10])
             L = rng.choice([2, 4, 8, 12, 15]) / 16.0
@@ -120,15 +125,20 @@ def run(ctx):
                 w = [rng.randrange(0, 5) for _j in range(n)]
                 if sum(w) == 0: w[i] = 1
                 A.append([x / sum(w) for x in w])
+        elif kind == "exact_tol":   # halving map on dyadic data: the error hits a power-of-two tolerance exactly
+            A = [[0.5 if i == j else 0.0 for j in range(n)] for i in range(n)]
         else:
             A = [[rng.choice([0.0, 1.5, -2.0, 1.0]) if i == j else rng.choice([0.0, 0.25]) for j in range(n)] for i in range(n)]
         b = [0.0] * n if kind == "stochastic" else [rng.randrange(-16, 17) / 4.0 for _i in range(n)]
         v0 = [rng.randrange(-40, 41) / 8.0 for _i in range(n)]
         tol = rng.choice([1e-3, 1e-3, 1e-6, 1e-10, 0.5, 1e-2])
         max_iter = rng.choice([50, 50, 200, 1, 2, 3, 10])
+        if kind == "exact_tol":
+            b = [0.0] * n; v0 = [float(rng.choice([1, 2, 4, -8, 16])) for _i in range(n)]
+            tol = math.ldexp(1.0, -rng.randrange(1, 12)); max_iter = 50
         if rng.random() < 0.03: max_iter = 0
         T = mk_affine(A, b)
-        code, v, calls, warned = run_fp(T, np.array(v0, dtype=float), tol, max_iter, "iteration")
+        code, v, calls, warned, rk = run_fp(T, np.array(v0, dtype=float), tol, max_iter, "iteration")
         cases.append(tup(flist2(A), flist(b), flist(v0), fl(tol), zl(max_iter), tup(zl(code), flist(v), zl(calls), blit(warned))))
         inp = {"method": "iteration", "map": "affine", "kind": kind, "A": A, "b": b, "v0": v0, "error_tol": tol, "max_iter": max_iter}
         meta.append((inp, (code, v, calls, warned)))
@@ -145,7 +155,8 @@ def run(ctx):
         Lnorm = max(sum(abs(F(A[i][j])) for j in range(n)) for i in range(n))
         slack = F(tol) * (1 + Fraction(1, 10**9)) + Fraction(1, 10**13) * (1 + max(abs(x) for x in vq))
         if not warned and resid > slack:
-            if Lnorm > 1:
+            # D7 class only: T is expansive AND the code's own test legitimately passed at v_k (T expanded the pair v_k, v)
+            if Lnorm > 1 and rk is not None and rk <= F(tol):
                 ctx.fail("fp_iteration_residual_expansive", "returned point has residual > error_tol without a warning (expansive operator)",
                          dict(inp, expansive=True), {"v": v, "residual": float(resid)}, tol)
             else:
@@ -189,7 +200,7 @@ def run(ctx):
         out.append(("simplex_nash_map", nash_map, None, None, False))
         return out
 
-    for _ in range(260 if thorough else 70):
+    for _ in range(800 if thorough else 70):
         n = rng.randrange(1, 5)
         for name, T, Texact, nonexp, expansive in maps(n):
             if name == "simplex_nash_map":
@@ -204,7 +215,7 @@ def run(ctx):
                 tol = rng.choice([1e-3, 1e-3, 1e-5, 1e-8])
                 max_iter = rng.choice([50, 50, 200, 5, 1])
                 v0c = float(v0[0]) if (n == 1 and rng.random() < 0.5 and method == "iteration" and name in ("half_plus_c", "dbl_cap(expansive)")) else v0.copy()
-                code, v, calls, warned = run_fp(T, v0c, tol, max_iter, method)
+                code, v, calls, warned, rk = run_fp(T, v0c, tol, max_iter, method)
                 inp = {"method": method, "map": name, "n": n, "v0": v0.tolist(), "error_tol": tol, "max_iter": max_iter}
                 ctx.case(("fp_other", name, method, v0.tolist(), tol, max_iter), nontrivial=(calls >= 2), sample={"call": inp, "impl": [v, calls, warned]})
                 ctx.count("fp_%s:%s:%s" % (method, name, "warned" if warned else "converged"))
@@ -219,14 +230,16 @@ def run(ctx):
                     resid = F(np.max(np.abs(np.asarray(T(va), dtype=float) - va)))
                 slack = F(tol) * (1 + Fraction(1, 10**9)) + Fraction(1, 10**13)
                 if not warned and resid > slack:
-                    if expansive and method == "iteration":
+                    # D7 class: the map is not known to be non-expansive, the code's own test max|T(v_k)-v_k| <= tol passed,
+                    # and T expanded the pair (v_k, T v_k): the returned T(v_k) has a larger residual
+                    if (expansive or nonexp is None) and method == "iteration" and rk is not None and rk <= F(tol):
                         ctx.fail("fp_iteration_residual_expansive", "returned point has residual > error_tol without a warning (expansive operator)",
                                  dict(inp, expansive=True), {"v": v, "residual": float(resid)}, tol)
                     else:
                         ctx.fail("fp_%s_residual" % method, "returned point has residual > error_tol without a warning", inp,
                                  {"v": v, "residual": float(resid)}, tol)
     # the recorded witness of finding D7, verbatim
-    code, v, calls, warned = run_fp(lambda x: min(2.0 * x, 1.0), 9e-4, 1e-3, 50, "iteration")
+    code, v, calls, warned, rk = run_fp(lambda x: min(2.0 * x, 1.0), 9e-4, 1e-3, 50, "iteration")
     ctx.case(("fp_D7",), nontrivial=False)
     if not warned and abs(min(2 * F(v[0]), 1) - F(v[0])) > F(1e-3):
         ctx.fail("fp_iteration_residual_expansive", "T(x)=min(2x,1), v0=9e-4, tol=1e-3: returned point has residual > tol, no warning",
@@ -263,7 +276,7 @@ def run(ctx):
             gains.append([ua - cur for ua in u])
         return gains
 
-    n_games = 60 if thorough else 14
+    n_games = 150 if thorough else 14
     for N in (2, 3, 4):
         for _ in range(n_games):
             nums, arr, style = rand_game(N, 4 if N < 4 else 3)
@@ -295,7 +308,7 @@ def run(ctx):
 
     # ---------------- correspondence of the predicate and of the best-response selection (Q instance, exact data)
     cases, meta = [], []
-    for _ in range(500 if thorough else 150):
+    for _ in range(2000 if thorough else 150):
         N = rng.choice([2, 2, 3, 3, 4])
         nums = [rng.randrange(1 if rng.random() < 0.1 else 2, (5 if N < 4 else 4)) for _ in range(N)]
         arr = np.zeros(tuple(nums) + (N,))
@@ -339,7 +352,7 @@ def run(ctx):
         ctx.mismatch("C15.Model.is_epsilon_nash/best_response_selection (Q instance) vs mclennan_tourky._is_epsilon_nash/_best_response_selection", inp, out)
 
     # ================================================================ polym_lcp_solver (oracle only)
-    for _ in range(160 if thorough else 40):
+    for _ in range(500 if thorough else 40):
         N = rng.choice([2, 3, 3, 4])
         nums = [rng.randrange(2, 4) for _ in range(N)]
         pm = {(i, j): np.array([[float(rng.randrange(-50, 51)) / rng.choice([1.0, 4.0, 7.0]) for _c in range(nums[j])] for _r in range(nums[i])])
@@ -390,6 +403,13 @@ def replay(data):
                 init = tuple(np.array(x) if isinstance(x, list) else x for x in init)
             NE, res = mclennan_tourky(g, init=init, epsilon=inp["epsilon"], max_iter=inp["max_iter"], full_output=True)
             print("implementation now:", [x.tolist() for x in NE], res.converged, "library is_nash(tol=eps):", g.is_nash(NE, tol=inp["epsilon"]))
+        elif inp.get("solver") == "polym_lcp_solver":
+            from quantecon.game_theory import PolymatrixGame, polym_lcp_solver
+            pm = {tuple(int(t) for t in k.split(",")): np.array(v) for k, v in inp["polymatrix"].items()}
+            pg = PolymatrixGame(pm)
+            NE, res = polym_lcp_solver(pg, starting_player_actions=inp["start"], max_iter=20000, full_output=True)
+            print("implementation now:", [x.tolist() for x in NE], "converged:", res.converged,
+                  "library is_nash:", pg.to_nfg().is_nash(NE))
     except Exception as e:
         print("implementation raised:", repr(e))
     return 0
